@@ -49,69 +49,69 @@ theorem dispose_releases_all_count (count skip t0 : Nat) (evs : List (Nat × Ev 
   exact ⟨ho, fun ha => released h ho ha⟩
 
 /-! ### window_(boundaries) -/
-theorem terminal_releases_all_boundaries (t0 : Nat) (evs : List (Nat × Ev α)) :
-    let b := (Bnd.run (Bnd.init t0) evs).b
+theorem terminal_releases_all_boundaries (t0 : Nat) (bsync : Option (Notif Unit)) (evs : List (Nat × Ev α)) :
+    let b := (Bnd.run (Bnd.init t0 bsync) evs).b
     b.outerStopped = true → b.attachedCount = 0 → Released b := by
   intro b ho ha
   have h : Rel b := by
-    show Rel (Bnd.run (Bnd.init t0) evs).b
+    show Rel (Bnd.run (Bnd.init t0 bsync) evs).b
     rw [Bnd.run_eq_fold]
-    exact Rel_fold Bnd.mach (·.b) (fun s t e h => Bnd.Rel_step s t e h) evs _ (Bnd.Rel_init t0)
+    exact Rel_fold Bnd.mach (·.b) (fun s t e h => Bnd.Rel_step s t e h) evs _ (Bnd.Rel_init t0 bsync)
   exact released h ho ha
 
-theorem dispose_releases_all_boundaries (t0 : Nat) (evs : List (Nat × Ev α)) (t : Nat) (w : Bool) :
-    let b := (Bnd.mach.step (Bnd.run (Bnd.init t0) evs) t (.dispose w)).b
+theorem dispose_releases_all_boundaries (t0 : Nat) (bsync : Option (Notif Unit)) (evs : List (Nat × Ev α)) (t : Nat) (w : Bool) :
+    let b := (Bnd.mach.step (Bnd.run (Bnd.init t0 bsync) evs) t (.dispose w)).b
     b.outerStopped = true ∧ (b.attachedCount = 0 → Released b) := by
   intro b
-  have h0 : Rel (Bnd.run (Bnd.init t0) evs).b := by
+  have h0 : Rel (Bnd.run (Bnd.init t0 bsync) evs).b := by
     rw [Bnd.run_eq_fold]
-    exact Rel_fold Bnd.mach (·.b) (fun s t e h => Bnd.Rel_step s t e h) evs _ (Bnd.Rel_init t0)
+    exact Rel_fold Bnd.mach (·.b) (fun s t e h => Bnd.Rel_step s t e h) evs _ (Bnd.Rel_init t0 bsync)
   have h : Rel b := Bnd.Rel_step _ t (.dispose w) h0
   have ho : b.outerStopped = true := by simp only [b, Bnd.mach, Bnd.step]; exact Base.os_disposeEv _ _
   exact ⟨ho, fun ha => released h ho ha⟩
 
 /-! ### window_when_ -/
-theorem terminal_releases_all_when (raiseAt : Option Nat) (pool t0 : Nat) (evs : List (Nat × Ev α)) :
-    let b := (Whn.run raiseAt pool (Whn.init raiseAt pool t0) evs).b
+theorem terminal_releases_all_when (raiseAt : Option Nat) (pool t0 : Nat) (sync : List (Option (Option Err))) (evs : List (Nat × Ev α)) :
+    let b := (Whn.run raiseAt pool (Whn.init raiseAt pool t0 sync) evs).b
     b.outerStopped = true → b.attachedCount = 0 → Released b := by
   intro b ho ha
   have h : Rel b := by
-    show Rel (Whn.run raiseAt pool (Whn.init raiseAt pool t0) evs).b
+    show Rel (Whn.run raiseAt pool (Whn.init raiseAt pool t0 sync) evs).b
     rw [Whn.run_eq_fold]
     exact Rel_fold (Whn.mach raiseAt pool) (·.b) (fun s t e h => Whn.Rel_step raiseAt pool s t e h) evs _
-      (Whn.Rel_init raiseAt pool t0)
+      (Whn.Rel_init raiseAt pool t0 sync)
   exact released h ho ha
 
-theorem dispose_releases_all_when (raiseAt : Option Nat) (pool t0 : Nat) (evs : List (Nat × Ev α)) (t : Nat) (w : Bool) :
-    let b := ((Whn.mach raiseAt pool).step (Whn.run raiseAt pool (Whn.init raiseAt pool t0) evs) t (.dispose w)).b
+theorem dispose_releases_all_when (raiseAt : Option Nat) (pool t0 : Nat) (sync : List (Option (Option Err))) (evs : List (Nat × Ev α)) (t : Nat) (w : Bool) :
+    let b := ((Whn.mach raiseAt pool).step (Whn.run raiseAt pool (Whn.init raiseAt pool t0 sync) evs) t (.dispose w)).b
     b.outerStopped = true ∧ (b.attachedCount = 0 → Released b) := by
   intro b
-  have h0 : Rel (Whn.run raiseAt pool (Whn.init raiseAt pool t0) evs).b := by
+  have h0 : Rel (Whn.run raiseAt pool (Whn.init raiseAt pool t0 sync) evs).b := by
     rw [Whn.run_eq_fold]
     exact Rel_fold (Whn.mach raiseAt pool) (·.b) (fun s t e h => Whn.Rel_step raiseAt pool s t e h) evs _
-      (Whn.Rel_init raiseAt pool t0)
+      (Whn.Rel_init raiseAt pool t0 sync)
   have h : Rel b := Whn.Rel_step raiseAt pool _ t (.dispose w) h0
   have ho : b.outerStopped = true := by simp only [b, Whn.mach, Whn.step]; exact Base.os_disposeEv _ _
   exact ⟨ho, fun ha => released h ho ha⟩
 
 /-! ### window_toggle_ (= group_join_) -/
-theorem terminal_releases_all_toggle (raiseAt : Option Nat) (pool t0 : Nat) (evs : List (Nat × Ev α)) :
-    let b := (Tgl.run raiseAt pool (Tgl.init t0) evs).b
+theorem terminal_releases_all_toggle (raiseAt : Option Nat) (pool t0 : Nat) (sync : List (Option (Option Err))) (evs : List (Nat × Ev α)) :
+    let b := (Tgl.run raiseAt pool (Tgl.init t0 sync) evs).b
     b.outerStopped = true → b.attachedCount = 0 → Released b := by
   intro b ho ha
   have h : Rel b := by
-    show Rel (Tgl.run raiseAt pool (Tgl.init t0) evs).b
+    show Rel (Tgl.run raiseAt pool (Tgl.init t0 sync) evs).b
     rw [Tgl.run_eq_fold]
-    exact Rel_fold (Tgl.mach raiseAt pool) (·.b) (fun s t e h => Tgl.Rel_step raiseAt pool s t e h) evs _ (Tgl.Rel_init t0)
+    exact Rel_fold (Tgl.mach raiseAt pool) (·.b) (fun s t e h => Tgl.Rel_step raiseAt pool s t e h) evs _ (Tgl.Rel_init t0 sync)
   exact released h ho ha
 
-theorem dispose_releases_all_toggle (raiseAt : Option Nat) (pool t0 : Nat) (evs : List (Nat × Ev α)) (t : Nat) (w : Bool) :
-    let b := ((Tgl.mach raiseAt pool).step (Tgl.run raiseAt pool (Tgl.init t0) evs) t (.dispose w)).b
+theorem dispose_releases_all_toggle (raiseAt : Option Nat) (pool t0 : Nat) (sync : List (Option (Option Err))) (evs : List (Nat × Ev α)) (t : Nat) (w : Bool) :
+    let b := ((Tgl.mach raiseAt pool).step (Tgl.run raiseAt pool (Tgl.init t0 sync) evs) t (.dispose w)).b
     b.outerStopped = true ∧ (b.attachedCount = 0 → Released b) := by
   intro b
-  have h0 : Rel (Tgl.run raiseAt pool (Tgl.init t0) evs).b := by
+  have h0 : Rel (Tgl.run raiseAt pool (Tgl.init t0 sync) evs).b := by
     rw [Tgl.run_eq_fold]
-    exact Rel_fold (Tgl.mach raiseAt pool) (·.b) (fun s t e h => Tgl.Rel_step raiseAt pool s t e h) evs _ (Tgl.Rel_init t0)
+    exact Rel_fold (Tgl.mach raiseAt pool) (·.b) (fun s t e h => Tgl.Rel_step raiseAt pool s t e h) evs _ (Tgl.Rel_init t0 sync)
   have h : Rel b := Tgl.Rel_step raiseAt pool _ t (.dispose w) h0
   have ho : b.outerStopped = true := by simp only [b, Tgl.mach, Tgl.step]; exact Base.os_disposeEv _ _
   exact ⟨ho, fun ha => released h ho ha⟩
